@@ -26,13 +26,16 @@ const (
 	c10Room  = "@ROOM@"  // the room of the bystander
 	c10Burl  = "@BURL@"  // auth URL of the fake backend
 	c10Bbase = "@BBASE@" // base URL of the fake backend
+	c10Oid   = "@OID@"   // public id of the session without connection (user c10OffUser, member of the bystander's room)
 )
+
+const c10OffUser = "user9"
 
 const c10RoomId = "424242"
 
 type c10Step struct {
 	St    int    `json:"st"`
-	K     string `json:"k"` // doc, bad, bin, over, opaque
+	K     string `json:"k"` // doc, bad, bin, over, opaque; resume: no frame of the sender - the session without connection resumes (St 7)
 	Doc   *vj    `json:"doc,omitempty"`
 	Raw   string `json:"raw,omitempty"` // base64 of the frame (bad, bin, over, opaque); placeholders are substituted after decoding
 	Class string `json:"class,omitempty"`
@@ -45,6 +48,7 @@ type c10Step struct {
 	ByOk    bool     `json:"byok,omitempty"`
 	DSame   bool     `json:"dsame,omitempty"`
 	Api     int      `json:"api,omitempty"`
+	Off     int      `json:"off,omitempty"` // messages added to the queue of the session without connection
 	Orc     []string `json:"orc,omitempty"`
 	Panic   string   `json:"panic,omitempty"`
 }
@@ -219,12 +223,12 @@ func (s *c10Step) coqInput() string {
 }
 
 func (s *c10Step) coq() string {
-	if s.K == "opaque" {
-		return fmt.Sprintf("mkopaque %d (mkobs %s %s %s %s %s %s %s)", s.St, coqBool(s.Alive), coqList(s.Replies),
-			coqBool(s.Closed), coqList(s.By), coqBool(s.ByOk), coqBool(s.DSame), coqZ(int64(s.Api)))
+	if s.K == "opaque" || s.K == "resume" {
+		return fmt.Sprintf("mkopaque %d (mkobs %s %s %s %s %s %s %s %s)", s.St, coqBool(s.Alive), coqList(s.Replies),
+			coqBool(s.Closed), coqList(s.By), coqBool(s.ByOk), coqBool(s.DSame), coqZ(int64(s.Api)), coqZ(int64(s.Off)))
 	}
-	return fmt.Sprintf("mkstep %d %s (mkobs %s %s %s %s %s %s %s)", s.St, s.coqInput(), coqBool(s.Alive), coqList(s.Replies),
-		coqBool(s.Closed), coqList(s.By), coqBool(s.ByOk), coqBool(s.DSame), coqZ(int64(s.Api)))
+	return fmt.Sprintf("mkstep %d %s (mkobs %s %s %s %s %s %s %s %s)", s.St, s.coqInput(), coqBool(s.Alive), coqList(s.Replies),
+		coqBool(s.Closed), coqList(s.By), coqBool(s.ByOk), coqBool(s.DSame), coqZ(int64(s.Api)), coqZ(int64(s.Off)))
 }
 
 func (c *c10Case) coq(fixDialout, fixLabel bool) string {
@@ -529,6 +533,14 @@ func (g *c10Gen) enumerate(maxDepth int) {
 		g.items = append(g.items, c10Item{fmt.Sprintf("nest/unknown-%d", n), bye.clone().with("x", jnestv(n, ji(1))).with("id", js("n")).with("type", js("foo")), []int{2, 0}})
 		g.hist["nesting"] += 5
 	}
+	// ... and of the event bus, which carries messages to rooms and users as JSON text three levels deeper
+	for _, n := range []int{9996, 9997, 9998} {
+		g.items = append(g.items, c10Item{fmt.Sprintf("nest/data-room-%d", n), c10SetPath(msgRoom, []string{"message", "data"}, jnestv(n, ji(1))), []int{2}})
+		g.items = append(g.items, c10Item{fmt.Sprintf("nest/data-offline-user-%d", n), c10Msg("n3", "message", kv("message", jo(kv("recipient", c10Recipient("user", kv("userid", js(c10OffUser)))), kv("data", jnestv(n, ji(1)))))), []int{2}})
+		g.items = append(g.items, c10Item{fmt.Sprintf("nest/data-offline-%d", n+2), c10Msg("n1", "message", kv("message", jo(kv("recipient", c10Recipient("session", kv("sessionid", js(c10Oid)))), kv("data", jnestv(n+2, ji(1)))))), []int{2}})
+		g.items = append(g.items, c10Item{fmt.Sprintf("nest/control-room-%d", n), c10Msg("n2", "control", kv("control", jo(kv("recipient", c10Recipient("room")), kv("data", jnestv(n, ji(1)))))), []int{2}})
+		g.hist["nesting"] += 4
+	}
 	// the payload the hub decodes a second time when it has a media server
 	data := func(members ...vjm) *vj { return jo(members...) }
 	payloads := []c11Shape{
@@ -561,9 +573,79 @@ func (g *c10Gen) enumerate(maxDepth int) {
 			n string
 			v *vj
 		}{{"self", c10Recipient("session", kv("sessionid", js(c10Sid)))}, {"other", c10Recipient("session", kv("sessionid", js(c10Bid)))},
-			{"room", c10Recipient("room")}, {"call", c10Recipient("call")}, {"user", c10Recipient("user", kv("userid", js("user7")))}} {
+			{"room", c10Recipient("room")}, {"call", c10Recipient("call")}, {"user", c10Recipient("user", kv("userid", js("user7")))},
+			{"offline", c10Recipient("session", kv("sessionid", js(c10Oid)))}} {
 			g.items = append(g.items, c10Item{"mcu/" + s.name + "/" + rc.n, c10Msg("p1", "message", kv("message", jo(kv("recipient", rc.v), kv("data", s.v)))), []int{2, 1, 3}})
 			g.hist["mcu_payload"]++
+		}
+	}
+	// Recipients without connection (session kept for a resume): what is sent to them is
+	// stored, and storePendingMessage looks into the payload (ServerMessage.IsChatRefresh:
+	// {"type":"chat","chat":{"refresh":bool}}).  Every payload to the session itself, to its
+	// room, to its user, to the call (it is in the call, nobody else is), and to connected recipients.
+	chats := []c11Shape{
+		{"type-only", data(kv("type", js("chat")))},
+		{"chat-null", data(kv("type", js("chat")), kv("chat", jz()))},
+		{"chat-empty", data(kv("type", js("chat")), kv("chat", jo()))},
+		{"refresh-true", data(kv("type", js("chat")), kv("chat", jo(kv("refresh", jb(true)))))},
+		{"refresh-true-again", data(kv("type", js("chat")), kv("chat", jo(kv("refresh", jb(true)))), kv("n", ji(2)))},
+		{"refresh-false", data(kv("type", js("chat")), kv("chat", jo(kv("refresh", jb(false)))))},
+		{"refresh-null", data(kv("type", js("chat")), kv("chat", jo(kv("refresh", jz()))))},
+		{"refresh-str", data(kv("type", js("chat")), kv("chat", jo(kv("refresh", js("true")))))},
+		{"refresh-num", data(kv("type", js("chat")), kv("chat", jo(kv("refresh", ji(1)))))},
+		{"chat-num", data(kv("type", js("chat")), kv("chat", ji(5)))},
+		{"chat-str", data(kv("type", js("chat")), kv("chat", js("refresh")))},
+		{"chat-arr", data(kv("type", js("chat")), kv("chat", ja(jo(kv("refresh", jb(true))))))},
+		{"chat-true", data(kv("type", js("chat")), kv("chat", jb(true)))},
+		{"chat-then-null", data(kv("type", js("chat")), kv("chat", jo(kv("refresh", jb(true)))), kv("chat", jz()))},
+		{"null-then-chat", data(kv("chat", jz()), kv("type", js("chat")), kv("chat", jo(kv("refresh", jb(false)))))},
+		{"chat-merged", data(kv("type", js("chat")), kv("chat", jo()), kv("chat", jo(kv("refresh", jb(true)))))},
+		{"type-twice", data(kv("type", js("chat")), kv("type", js("other")))},
+		{"type-upper", data(kv("type", js("Chat")), kv("chat", jz()))},
+		{"type-num", data(kv("type", ji(1)), kv("chat", jo(kv("refresh", jb(true)))))},
+		{"no-type", data(kv("chat", jo(kv("refresh", jb(true)))))},
+		{"other-type-chat-null", data(kv("type", js("raisehand")), kv("chat", jz()))},
+		{"data-str", js("chat")},
+		{"data-arr", ja(js("chat"))},
+		{"data-num", ji(0)},
+		{"data-false", jb(false)},
+		{"data-empty", jo()},
+		{"chat-deep", data(kv("type", js("chat")), kv("chat", jo(kv("x", jnestv(300, ji(1))))))},
+		{"chat-float-overflow", data(kv("type", js("chat")), kv("chat", jo(kv("x", jf(1, 400)))))},
+	}
+	offRcpts := []struct {
+		n string
+		v *vj
+	}{{"offline", c10Recipient("session", kv("sessionid", js(c10Oid)))}, {"room", c10Recipient("room")}, {"offline-user", c10Recipient("user", kv("userid", js(c10OffUser)))},
+		{"call", c10Recipient("call")}, {"other", c10Recipient("session", kv("sessionid", js(c10Bid)))}}
+	for _, s := range chats {
+		for _, rc := range offRcpts {
+			home := []int{2, 1, 3}
+			if rc.n == "other" {
+				home = []int{2}
+			}
+			g.items = append(g.items, c10Item{"store/" + s.name + "/" + rc.n, c10Msg("s1", "message", kv("message", jo(kv("recipient", rc.v), kv("data", s.v)))), home})
+			g.hist["offline_recipient"]++
+		}
+	}
+	for _, s := range chats[:6] {
+		for _, rc := range offRcpts[:3] {
+			g.items = append(g.items, c10Item{"store-control/" + s.name + "/" + rc.n, c10Msg("s2", "control", kv("control", jo(kv("recipient", rc.v), kv("data", s.v)))), []int{2, 1, 3}})
+			g.hist["offline_recipient"]++
+		}
+	}
+	// messages of every other kind to the session without connection (and a session id nobody has)
+	for _, rc := range []struct {
+		n string
+		v *vj
+	}{{"offline", c10Recipient("session", kv("sessionid", js(c10Oid)))}, {"unknown", c10Recipient("session", kv("sessionid", js("no-such-session")))},
+		{"offline-userid-too", c10Recipient("session", kv("sessionid", js(c10Oid)), kv("userid", js(c10OffUser)))},
+		{"user-with-offline-sessionid", c10Recipient("user", kv("userid", js("user7")), kv("sessionid", js(c10Oid)))}} {
+		for _, s := range []c11Shape{{"plain", jo(kv("tag", ji(7)))}, {"null", jz()}, {"str", js("x")}, {"empty-str", js("")}, {"deep", jnestv(300, ji(1))}} {
+			for _, kind := range []string{"message", "control"} {
+				g.items = append(g.items, c10Item{"store-any/" + kind + "/" + s.name + "/" + rc.n, c10Msg("s3", kind, kv(kind, jo(kv("recipient", rc.v), kv("data", s.v)))), []int{2, 1, 3}})
+				g.hist["offline_recipient"]++
+			}
 		}
 	}
 	// contents of hello.auth.params for the types that decode them
@@ -661,6 +743,35 @@ func c10Witnesses() []c10Case {
 		{Ops: []c10Step{{St: 0, K: "doc", Doc: jo(kv("type", js(c10Bytes([]byte("by\xe2\x82e"))))), Class: "witness/type-not-utf8-before-hello"}}},
 		{Ops: []c10Step{{St: 2, K: "doc", Doc: jo(kv("id", js("w")), kv("type", js(c10Bytes([]byte("\xff"))))), Class: "witness/type-not-utf8-in-room"}}},
 	}
+}
+
+// What was stored for the session without connection is sent when it resumes: a few
+// payloads of each kind to it (by session id, room, call, user), then the resume.  The
+// queue holds everything the earlier steps of the same child left there as well.
+func c10ResumeCases() []c10Case {
+	msg := func(kind string, rc *vj, data *vj) *vj {
+		return c10Msg("q1", kind, kv(kind, jo(kv("recipient", rc), kv("data", data))))
+	}
+	off := c10Recipient("session", kv("sessionid", js(c10Oid)))
+	chat := func(members ...vjm) *vj { return jo(append([]vjm{kv("type", js("chat"))}, members...)...) }
+	groups := [][]*vj{
+		{msg("message", off, chat()), msg("message", c10Recipient("room"), chat(kv("chat", jz()))), msg("message", off, chat(kv("chat", jo(kv("refresh", jb(true))))))},
+		{msg("message", c10Recipient("call"), chat(kv("chat", jo()))), msg("control", off, chat()), msg("message", c10Recipient("user", kv("userid", js(c10OffUser))), chat(kv("chat", ji(5))))},
+		{msg("message", off, js("chat")), msg("message", off, jnestv(300, ji(1))), msg("control", c10Recipient("room"), jz())},
+		{msg("message", c10Recipient("room"), jo(kv("type", js("offer")), kv("payload", jo(kv("sdp", js("not an sdp")))))), msg("message", off, jo(kv("type", js("unshareScreen")), kv("roomType", js("screen"))))},
+		{c10Msg("t1", "transient", kv("transient", jo(kv("type", js("set")), kv("key", js("k9")), kv("value", jo(kv("v", ji(1))))))), msg("message", off, jo())},
+		{msg("message", off, chat(kv("chat", jo(kv("refresh", jb(true)))))), msg("message", off, chat(kv("chat", jo(kv("refresh", jb(true)))))), msg("message", c10Recipient("room"), chat(kv("chat", jo(kv("refresh", jb(false))))))},
+	}
+	var out []c10Case
+	for gi, g := range groups {
+		c := c10Case{}
+		for di, d := range g {
+			c.Ops = append(c.Ops, c10Step{St: 2, K: "doc", Doc: d, Class: fmt.Sprintf("resume/%d/store-%d", gi, di)})
+		}
+		c.Ops = append(c.Ops, c10Step{St: 7, K: "resume", Class: fmt.Sprintf("resume/%d/resume", gi)})
+		out = append(out, c)
+	}
+	return out
 }
 
 // ---- raw frames -------------------------------------------------------------------------------------------------
@@ -780,7 +891,7 @@ func c10RandomValue(r *vrng, depth int) *vj {
 	case n == 3:
 		return jf(int64(r.intn(40))-5, int64(r.intn(5))-2)
 	case n <= 5:
-		return js(pick(r, []string{"", "x", c10Sid, c10Bid, c10Pid, c10Room, "room", "session", "dialout", "status", "error", "1.0", "2.0", "internal", "set", "offer", c10Burl}))
+		return js(pick(r, []string{"", "x", c10Sid, c10Bid, c10Pid, c10Room, "room", "session", "dialout", "status", "error", "1.0", "2.0", "internal", "set", "offer", c10Burl, c10Oid, "chat", c10OffUser}))
 	case n == 6 && depth > 0:
 		var l []*vj
 		for i := r.intn(3); i > 0; i-- {
@@ -790,7 +901,7 @@ func c10RandomValue(r *vrng, depth int) *vj {
 	case n == 7 && depth > 0:
 		o := jo()
 		for i := r.intn(3); i > 0; i-- {
-			o.O = append(o.O, kv(pick(r, []string{"type", "sessionid", "roomid", "data", "recipient", "dialout", "status", "error", "incall", "key", "id"}), c10RandomValue(r, depth-1)))
+			o.O = append(o.O, kv(pick(r, []string{"type", "sessionid", "roomid", "data", "recipient", "dialout", "status", "error", "incall", "key", "id", "chat", "refresh", "userid"}), c10RandomValue(r, depth-1)))
 		}
 		return o
 	}
